@@ -153,8 +153,19 @@ func TestC07e2e(t *testing.T) {
 			}
 			// a filter can be replaced: whatever is published afterwards is routed by
 			// the filter the subscription has now
+			cleared := map[int]bool{}
 			for s := 0; s < nsubs; s++ {
 				if filters[s] == nil || r.Intn(2) == 0 {
+					continue
+				}
+				if s%5 == 0 {
+					// ... or removed: the only thing the request does is clear the field
+					if _, err := e.Sub.UpdateSubscription(e.Ctx, &pubsubpb.UpdateSubscriptionRequest{Subscription: &pubsubpb.Subscription{Name: fmt.Sprintf("projects/p/subscriptions/s%d", s)}, UpdateMask: &fieldmaskpb.FieldMask{Paths: []string{"filter"}}}); err != nil {
+						col.Violation("clearing-a-filter-rejected", fmt.Sprintf("UpdateSubscription(mask filter, empty filter) failed: %v", err), nil)
+						continue
+					}
+					cleared[s] = true
+					updated++
 					continue
 				}
 				nf := e2eAST(r, r.Intn(3))
@@ -189,6 +200,14 @@ func TestC07e2e(t *testing.T) {
 				}
 				for m := 0; m < nmsgs; m++ {
 					want := filters[s].Eval(attrs[m])
+					if cleared[s] {
+						want = ref.True
+						if !got[m] {
+							col.Violation("routing-after-filter-removed", fmt.Sprintf("subscription whose filter (%q) was removed by an update: message with attributes %v was not delivered", filters[s].String(), attrs[m]), map[string]any{"case_seed": seed, "old_filter": filters[s].String(), "attrs": attrs[m]})
+						}
+						pairs++
+						continue
+					}
 					if want == ref.Unspec {
 						unspec++
 						continue
